@@ -706,6 +706,31 @@ func TestC07(t *testing.T) {
 				}
 			}
 		}
+		// and one property at a time (a row whose guard looks at a sibling only shows when the sibling is not there)
+		for ni, nc := range names {
+			if !nc.known {
+				continue
+			}
+			for ci, c := range all {
+				if c.name != "json-top" && c.name != "json-item" && c.name != "gob-top" && c.name != "gob-nested" && c.name != "gob-list" {
+					continue
+				}
+				for _, one := range vocab.OneProperty(vocab.StructType(nc.ti.GoType), c.form == vocab.GobForm, ni+ci) {
+					atotal++
+					cell := fmt.Sprintf("%s %s-one %s", nc.name, c.name, one.ID)
+					if !r.WantCell(cell) {
+						continue
+					}
+					adone++
+					x := one.Value
+					sv, _ := vocab.StructOf(x)
+					sv.FieldByName("Type").SetString(nc.name)
+					ds, _ := roundTrip(c, x, "type "+nc.name+" "+c.name+"-one unset", one.Type.Name()+"."+one.Field.Name)
+					r.Case(cell, true, "everything one-property entry="+c.name)
+					reportAll(r, "everything", cell, ds, map[string]interface{}{"cell": cell, "value": vocab.Dump(x)})
+				}
+			}
+		}
 		r.Cells(atotal, adone)
 		r.Exhaustive("everything", !r.Replaying())
 	}
